@@ -31,6 +31,7 @@ type ZFile struct {
 	GoModKind string // how the go.mod text was built (coverage accounting)
 	Tag       string // what the generator intended with this file
 	Opened    int
+	OpenErr   error // when set, Open itself fails with this error
 	ReadErr   error // when set, Open serves Data[:ReadErrAt] and then fails with this error
 	ReadErrAt int
 	LaterSz   int64 // when > 0, every Lstat after the first reports this size instead of Sz
@@ -59,6 +60,9 @@ func (f *ZFile) Lstat() (os.FileInfo, error) {
 }
 func (f *ZFile) Open() (io.ReadCloser, error) {
 	f.Opened++
+	if f.OpenErr != nil {
+		return nil, f.OpenErr
+	}
 	if f.ReadErr != nil {
 		return io.NopCloser(io.MultiReader(bytes.NewReader(f.Data[:f.ReadErrAt]), zErrReader{f.ReadErr})), nil
 	}
@@ -470,6 +474,9 @@ var zBadModules = []ZModule{
 	{"example.com/m/v2", "v20.3.1-pre", "major-mismatch"},
 	{"gopkg.in/yaml.v3", "v30.0.0", "major-mismatch"},
 	{"example.com/m/v21", "v2.0.0", "major-mismatch"},
+	{"example.com/m/v2", "v3.0.0+incompatible", "major-mismatch"},
+	{"example.com/m/v2", "v1.0.0+incompatible", "major-mismatch"},
+	{"gopkg.in/yaml.v2", "v3.1.0+incompatible", "major-mismatch"},
 	{"example.com/m/v2", "v0.0.0-20191109021931-daa7c04131f5", "major-mismatch"},
 	{"gopkg.in/yaml.v2", "v1.0.0", "major-mismatch"},
 	{"gopkg.in/yaml.v2", "v3.0.0", "major-mismatch"},
